@@ -18,7 +18,7 @@ CLAIMED = {
          "Trusts the int64 reference hull (coordinates below 2^29 so cross products cannot overflow) and internal/exact for float inputs (positions equal as numbers are one point: 0 and -0).", "DESIGN.md §4 C13"),
  "C15": ("rapid integer segments/points in constructed clamping regions vs exact rational distances",
          "Generated-input search over points, polylines and segment pairs built by construction in every clamping region of the (s,t) parameter square, degenerate, parallel, collinear and touching classes, all 8 argument-order variants; results compared with exact rational squared distances inside the tolerance the property states.",
-         "Trusts internal/exact (exact minimisation over the clamped square); tolerance 1e-9 x coordinate scale as stated by the property.", "DESIGN.md §4 C15"),
+         "Trusts internal/exact (exact minimisation over the clamped square); tolerance 1e-12 x coordinate scale (the statement says 'rounding error relative to the coordinate scale'; measured errors are a few 1e-16 x scale).", "DESIGN.md §4 C15"),
  "C08": ("rapid geometries / Extend sequences and permutations vs per-dimension-name reference box",
          "Generated-input search over geometries of all types and layout mixes (nested collections, empty members, +-Inf, -0), Extend sequences with a drawn permutation, boxes built three ways for the overlap predicates, Bounds.Polygon and the GeoJSON bbox; the oracle is a reference box keyed by dimension name (X,Y,Z,M,extras).",
          "NaN ordinates excluded as the property states; a box with data in X,Y but an empty Z/M dimension is not asserted for IsEmpty/Polygon; bbox only checked when every dimension it reports holds data.", "DESIGN.md §4 C08"),
@@ -95,6 +95,28 @@ EXTRA = {
  "C19": " Increments of 28-31 and 365/366 days (date headers that look at part of the date); the track returned by Read is looked at again after another stream was read.",
  "C20": " Mixed-scale lines (unit-sized detail between legs 2^40..2^62 long); every case may be scaled by an exact power of two to 2^+-400 together with its threshold; the rounding slack of a dropped point is relative to the three points involved.",
 }
+# additions of seeding rounds i-k (DESIGN.md §8.7)
+EXTRA2 = {
+ "C01": " After the first result grows by two Push calls the same route builds the geometry a second time (constructors do not depend on what became of earlier results).",
+ "C02": " Receivers start from any constructor (flat, flat without ends, SetCoords, Push, Clone, WKB decode) holding 0-3 parts; a part accessor's result is pushed back onto its own receiver (the last polygon optionally grown first); after every step new values are built by the plain constructors and compared with the model; collection arguments are passed in a slice with spare room that the caller refills; a receiver without a layout refuses every part.",
+ "C03": " Reader kinds include a *bufio.Reader with buffer sizes 16..4097 over a splitting reader; writers that fail once and work again; the geometry under 5-130 nested collections; a sibling of the case (same structure and emptiness, other ordinates, SRIDs and byte order) is decoded by every route before retained results are looked at again; returned byte slices are overwritten by the caller and Marshal asked again.",
+ "C04": " Class atlimit (long first components, a count raised exactly to its limit); a sibling of the decoded geometry is marshalled and decoded before the decoded geometry is compared with its earlier self.",
+ "C05": " The geometry under 5-257 nested collections; one Encoder value per case.",
+ "C06": " Unclosed rings also miss closure by 1-8 ulps, a relative 1e-15..1e-6 or a denormal; number literals at the limits of machine integers.",
+ "C07": " Property keys include the names GeoJSON uses elsewhere; collections are decoded into a value that held another collection; a grammar for the legacy crs member (named/linked, short/URN/URL names complete and cut short, wrong JSON types) on documents, nested geometries and features; deep nesting; returned bytes overwritten and Marshal asked again.",
+ "C08": " The box the caller extended is itself compared with the model; SRIDs (well-known codes included) are drawn; bounds are asked three times before the in-place rewrite.",
+ "C09": " fixedpoint class (whole numbers over the int16/int32/2^53 range) and integer-edge floats; SRIDs (geographic codes included) are drawn; measured three times before the in-place exchange.",
+ "C10": " Class filter-edge: differences that round by half an ulp in a chosen direction with a determinant of the order of 2^-52 of its products.",
+ "C11": " Asked three times before the ring's array is refilled.",
+ "C12": " The same four points paired into segments the other two ways, each against its own exact answer, then as given once more.",
+ "C13": " Zeros written as -0; five in nine cases put the set in ascending or descending (x,y)/(y,x) order with or without duplicates; the array is handed over three times, then refilled keeping its first and last point, then refilled entirely.",
+ "C14": " The centroid calculators used directly; points, lines, rings and polygons of 1023..5000 (thorough: ..65537) vertices; tolerance 3x the forward rounding bound.",
+ "C15": " After the whole line, shorter beginnings of it; the same slice asked three more times, then its interior vertices moved in place, then all; zig-zags of 4097..262145 vertices with the nearest point at block seams.",
+ "C17": " decode.Truncated and exact.Burst call groups; kml.Encode also on geometries with empty parts.",
+ "C18": " The same digit limit reached four ways: NewEncoder(option), the option applied to an existing encoder, over another limit already used, on the zero Encoder.",
+ "C19": " Every stream is read again through readers that deliver one byte at a time, half of what is asked for, the last bytes together with io.EOF, pieces, and a 16-byte *bufio.Reader; results must equal the in-memory read.",
+ "C20": " The caller overwrites every returned index list; the array is simplified three times, refilled keeping its first and last point, then refilled with the reversed, transposed line.",
+}
 PENDING_REASON = "check not built yet in this session (planned, see DESIGN.md §4); not claimed until its harness package exists"
 
 checks, na = [], []
@@ -109,7 +131,7 @@ for p in props:
             evidence_file="evidence/%s.json" % pid,
             replay_cmd_template="./check %s --replay {path}" % pid,
             engine="rapid-harness",
-            level_claimed=dict(category="exploration", text=text + EXTRA.get(pid, ""), design_ref=ref),
+            level_claimed=dict(category="exploration", text=text + EXTRA.get(pid, "") + EXTRA2.get(pid, ""), design_ref=ref),
             level_note=note,
             technique=tech,
         ))
